@@ -1,13 +1,14 @@
 #!/bin/bash
-# usage: seedtest.sh <Cxx> <variant-dir> [extra check args]  - applies a seeded change to /repo, runs its demo and our check, reverts.
+# usage: seedtest.sh <Cxx> <variant-dir> [extra check args]
+# applies a seeded change to a scratch copy of /repo (same effect as `git -C /repo apply` + undo, without disturbing other
+# runs), runs its demo on both trees and our check on the changed tree.
 P=$1; D=$2; shift 2
-cd /repo || exit 9
-if ! git diff --quiet; then echo "REPO DIRTY - abort"; exit 9; fi
+S=/dev/shm/verif-seed-$$
+mkdir -p $S && rsync -a --exclude .git --exclude docs --exclude examples /repo/ $S/
 echo "=== $P $D"
 PYTHONPATH=/repo timeout 300 /venv/bin/python $D/demo.py > /tmp/seed_demo_clean.out 2>&1; echo "demo on clean tree rc=$?"
-git apply --check $D/patch.diff || { echo "PATCH DOES NOT APPLY"; exit 8; }
-git apply $D/patch.diff
-PYTHONPATH=/repo timeout 300 /venv/bin/python $D/demo.py > /tmp/seed_demo_mut.out 2>&1; echo "demo on changed tree rc=$?"
-cd /verif && ./check $P "$@" > /tmp/seed_check.out 2>&1; RC=$?
-echo "check rc=$RC"; grep -E "^(VIOLATION|UNDECIDED|CHECKER-FAULT)" /tmp/seed_check.out | sed -E 's/replay=[^ ]+ //' | cut -c1-260 | head -6
-git -C /repo checkout -- . ; git -C /repo status --short | grep -v model.bif
+( cd $S && patch -p1 -s < $D/patch.diff ) || { echo "PATCH DOES NOT APPLY"; rm -rf $S; exit 8; }
+( cd $S && PYTHONPATH=$S timeout 300 /venv/bin/python $D/demo.py > /tmp/seed_demo_mut.out 2>&1; echo "demo on changed tree rc=$?" )
+cd /verif && VERIF_REPO=$S ./check $P "$@" > /tmp/seed_check_$P.out 2>&1; RC=$?
+echo "check rc=$RC"; grep -E "^(VIOLATION|UNDECIDED|CHECKER-FAULT)" /tmp/seed_check_$P.out | sed -E 's/replay=[^ ]+ //' | cut -c1-260 | head -6
+rm -rf $S
